@@ -63,6 +63,38 @@ fn dump_world(h: &Hw) -> String {
 }
 
 pub fn run(line: &str) -> String {
+    run_inner(line, false)
+}
+
+/// Same as `run`, plus for every op and bank the share values that the REAL `Bank::accrue_interest`
+/// yields when applied in isolation to the pre-instruction bank at the instruction's clock
+/// (`R <asv> <lsv>` or `R X X` if it errors) — the reference for the C06 freshness oracle.
+pub fn run_ref(line: &str) -> String {
+    run_inner(line, true)
+}
+
+fn ref_accrual(h: &Hw) -> String {
+    use marginfi::state::bank::BankImpl;
+    let group: MarginfiGroup = h.w.get::<MarginfiGroup>(&h.group).unwrap();
+    let now = h.w.unix_timestamp;
+    crate::sim::runtime::set_global_clock(now);
+    let mut v = Vec::new();
+    for bk in h.banks.iter() {
+        let mut b: Bank = h.w.get::<Bank>(bk).unwrap();
+        let r = guarded(|| match b.accrue_interest(now, &group, *bk) {
+            Ok(()) => format!(
+                "{} {}",
+                I80F48::from(b.asset_share_value).to_bits(),
+                I80F48::from(b.liability_share_value).to_bits()
+            ),
+            Err(_) => "X X".into(),
+        });
+        v.push(if r == "PANIC" { "X X".to_string() } else { r });
+    }
+    v.join(" ; ")
+}
+
+fn run_inner(line: &str, with_ref: bool) -> String {
     let mut t = Toks::new(line);
     let nb = t.usize();
     let na = t.usize();
@@ -183,6 +215,7 @@ pub fn run(line: &str) -> String {
     let mut out = Vec::new();
     for _ in 0..nops {
         let op = t.u8();
+        let refs = if with_ref { Some(ref_accrual(&h)) } else { None };
         let res: Result<(), ExecError> = match op {
             0 => {
                 let ts = t.i64();
@@ -280,7 +313,11 @@ pub fn run(line: &str) -> String {
             Ok(()) => "OK".to_string(),
             Err(e) => err_s(e),
         };
-        out.push(format!("{} # {}", rs, dump_world(&h)));
+        match refs {
+            Some(r) if op != 0 => out.push(format!("{} # {} # R {}", rs, dump_world(&h), r)),
+            Some(_) => out.push(format!("{} # {} # R -", rs, dump_world(&h))),
+            None => out.push(format!("{} # {}", rs, dump_world(&h))),
+        }
     }
     out.join(" | ")
 }
